@@ -53,6 +53,9 @@ CHECKS = {
     "C14": ("pbt-values", "Hypothesis-generated unit pairs biased to exact and dimension-only cancellation x rep pairs: result type pinned by static_assert (raw number iff the model says the units cancel, else Quantity with model-spelled Dimension/Magnitude and raw rep), values bit-equal to raw operators over all 8x8-bit pairs, special grids and rapidcheck draws; int_pow/sqrt/cbrt/inverse checks; negative probes with twins for the integer-division and as_raw_number guards",
             "Exploration: exact for sampled instances under ASan+UBSan; guards probed on an enumerated list of unit/rep combinations.",
             "collapse rule asserted for * and / between quantities (documented scope); int_pow result rep not asserted", "4/C14"),
+    "C15": ("pbt-values", "generated instances per function family: rounding (exhaustive +-2^16 integers, doubles placed k ulp around half-integers/integers of the TARGET unit) against the exact long-double value with a 4-ulp band; inversion (n=1..1000 exhaustive + round trip + random) against trunc(K/x); trig against long double std:: of exact radians with a stated tolerance; hypot/fmod/remainder/min/max/clamp/abs/isnan/copysign against std:: on common-unit values incl. NaN/inf/signed zeros; negative probes for integral inversions with K < 10^6",
+            "Exploration with explicit tolerances for floating point; exhaustive windows for integral reps.",
+            "long double oracle; bands and documented exceptions listed in evidence.assumptions", "4/C15"),
 }
 ENGINES = [
     {"name": "pbt-programs", "path": "auverif/hyp.py", "kind_free_text": "Hypothesis-generated translation units judged by compiler verdict / static_assert / program output against an independent Python model",
